@@ -22,6 +22,10 @@ type Env struct {
 	// memUsed records memory keys touched (used when compiling spec functions)
 	memUsed *[]memUse
 	lookup  func(name string) (Val, bool)
+	// freshBase: allocation counter of the old state (for fresh()); wt: hook receiving every value
+	// loaded from memory so that the type invariant of the cell can be assumed.
+	freshBase string
+	wt        func(v Val)
 }
 
 type memUse struct {
@@ -179,7 +183,11 @@ func (env *Env) load(loc string, t types.Type) Val {
 		}
 		return Val{T: t, S: term}
 	}
-	return Val{T: t, S: c.readLeaf(env.mem, env.memUsed, loc, t)}
+	v := Val{T: t, S: c.readLeaf(env.mem, env.memUsed, loc, t)}
+	if env.wt != nil && !strings.Contains(v.S, "q!") {
+		env.wt(v)
+	}
+	return v
 }
 
 func fieldIndex(t types.Type, name string) (int, *types.Struct) {
@@ -728,6 +736,32 @@ func (env *Env) elabCall(x *ECall) Val {
 			return Val{T: types.Typ[types.String], S: env.bytesToStr(v)}
 		}
 		fail("string() of %v", v.T)
+	case name == "disjoint" || name == "sameorigin":
+		a, b := env.elab(x.Args[0]), env.elab(x.Args[1])
+		if _, ok := a.T.Underlying().(*types.Slice); !ok {
+			fail("%s() needs slices", name)
+		}
+		if _, ok := b.T.Underlying().(*types.Slice); !ok {
+			fail("%s() needs slices", name)
+		}
+		if name == "disjoint" {
+			// conservative: different backing arrays
+			return Val{T: types.Typ[types.Bool], S: fmt.Sprintf("(not (= (sbase %s) (sbase %s)))", a.S, b.S)}
+		}
+		return Val{T: types.Typ[types.Bool], S: fmt.Sprintf("(and (= (sbase %s) (sbase %s)) (= (soff %s) (soff %s)))", a.S, b.S, a.S, b.S)}
+	case name == "fresh":
+		// allocated after the old state (function entry, or the call for a callee's contract)
+		if env.freshBase == "" {
+			fail("fresh() not available here")
+		}
+		a := env.elab(x.Args[0])
+		switch a.T.Underlying().(type) {
+		case *types.Slice:
+			return Val{T: types.Typ[types.Bool], S: fmt.Sprintf("(>= (rootof (sbase %s)) %s)", a.S, env.freshBase)}
+		case *types.Pointer:
+			return Val{T: types.Typ[types.Bool], S: fmt.Sprintf("(>= (rootof %s) %s)", a.S, env.freshBase)}
+		}
+		fail("fresh() needs a slice or pointer")
 	case name == "typeof":
 		v := env.elab(x.Args[0])
 		return Val{T: mathOrInt(c), S: fmt.Sprintf("(iface_type %s)", v.S)}
